@@ -19,7 +19,7 @@ fn fresh() -> Exec {
 fn handle_positions(toks: &[&str]) -> (Vec<usize>, bool) {
     match toks[0] {
         "node" => (vec![2, 3], false),
-        "not" | "low" | "high" | "onesat" | "paths" | "pathsi.open" | "size" | "bracket" | "satcount" | "subst" | "substm" | "cofcube" | "topcof" => (vec![1], false),
+        "not" | "acc" | "low" | "high" | "onesat" | "paths" | "pathsi.open" | "size" | "bracket" | "satcount" | "subst" | "substm" | "cofcube" | "topcof" => (vec![1], false),
         "ite" | "itec" => (vec![1, 2, 3], false),
         "and" | "or" | "xor" | "eq" | "imply" | "constrain" | "restrict" | "implies" => (vec![1, 2], false),
         "compose" => (vec![1, 3], false),
@@ -124,7 +124,7 @@ pub fn shrink(lines: &[String], prop: &str, budget: Duration) -> Option<(Vec<Str
     for (i, l) in lines.iter().enumerate() {
         let before = ex.env.len();
         let toks0 = l.split(' ').next().unwrap_or("");
-        if toks0 == "new" || toks0 == "newdefault" {
+        if toks0 == "new" || toks0 == "newdefault" || toks0 == "default" {
             // the constants are bound by the manager line: treat them as two produced handles
             ex.step(l);
             produced.push(ex.env.len());
@@ -144,7 +144,7 @@ pub fn shrink(lines: &[String], prop: &str, budget: Duration) -> Option<(Vec<Str
         .iter()
         .position(|l| {
             let t = l.split(' ').next().unwrap_or("");
-            matches!(t, "new" | "newdefault" | "t.new" | "tn.new" | "c.new" | "ck.new" | "raw.new")
+            matches!(t, "new" | "newdefault" | "default" | "t.new" | "tn.new" | "c.new" | "ck.new" | "raw.new")
         })
         .map(|p| p + 1)
         .unwrap_or(0);
